@@ -97,6 +97,16 @@ def make_tree(rng, root):
                                           '../' + '/'.join('directory%02d' % i for i in range(40)), '/'.join(['abcdefghij'] * rng.randint(12, 40))]))
         else:
             tree[rel] = ('f', rng.choice(contents) if rng.random() < 0.8 else bytes(rng.randrange(256) for _ in range(rng.choice([1, 100, 2049]))))
+    # sometimes a chain deeper than eight levels (Rock Ridge relocates the ninth; Joliet and UDF do not care)
+    if rng.random() < 0.2:
+        chain = ''
+        for i, comp in enumerate(('lvl1', 'lvl2', 'lvl3', 'lvl4', 'lvl5', 'lvl6', 'lvl7', 'lvl8', 'lvl9')[:rng.choice([8, 9])]):
+            chain = os.path.join(chain, comp) if chain else comp
+            tree.setdefault(chain, ('d',))
+        if tree.get(chain) == ('d',):
+            tree[os.path.join(chain, 'leaf.txt')] = ('f', b'deep leaf\n')
+            tree[os.path.join(chain, 'sub')] = ('d',)
+            tree[os.path.join(chain, 'sub', 'x')] = ('f', b'x' * 10)
     for rel, v in sorted(tree.items()):
         p = os.path.join(root, rel)
         if v[0] == 'd':
@@ -176,6 +186,13 @@ def case(ctx, rng, tmp):
                 hide_u.append(prng.choice(pool))
                 opts += ['-hide-udf', hide_u[-1]]
     matches = lambda name, pats: any(fnmatch.fnmatchcase(name, p) for p in pats)   # noqa
+    if not rr:
+        # like genisoimage, the tool leaves out directories deeper than the ISO9660 limit of eight levels (with everything
+        # below them, in every view) unless Rock Ridge is on: "Directories too deep ... ignored - continuing"
+        def too_deep(k, v):
+            parts = k.split('/')
+            return len(parts if v[0] == 'd' else parts[:-1]) >= 8
+        tree = {k: v for k, v in tree.items() if not too_deep(k, v)}
     tree = {k: v for k, v in tree.items() if not any(matches(c, excl) for c in k.split('/'))}
     img = os.path.join(tmp, 'out%d.iso' % rng.randrange(10 ** 9))
     rc, so, se = run_tool([GENISO, '-o', img] + opts + [src], tmp)
